@@ -39,11 +39,25 @@ var faultScenarios = []faultScenario{
 func faultPlans() []faultPlan {
 	ps := []faultPlan{{}}
 	for n := 1; n <= 6; n++ {
-		ps = append(ps, faultPlan{"get", n})
+		ps = append(ps, faultPlan{Kind: "get", N: n})
 	}
 	for _, k := range []string{"lock", "set", "unlock", "unlockerr"} {
 		for n := 1; n <= 3; n++ {
-			ps = append(ps, faultPlan{k, n})
+			ps = append(ps, faultPlan{Kind: k, N: n})
+		}
+	}
+	// data faults: the call succeeds, the record comes back damaged
+	for n := 1; n <= 4; n++ {
+		for _, m := range dataModes[:2] {
+			ps = append(ps, faultPlan{Kind: "getdata", N: n, Data: m, Span: 1})
+		}
+	}
+	for n := 2; n <= 3; n++ {
+		for _, m := range dataModes[2:] {
+			ps = append(ps, faultPlan{Kind: "getdata", N: n, Data: m, Span: 1})
+		}
+		for _, m := range []string{"trunc-half", "trunc-last", "badfirst"} {
+			ps = append(ps, faultPlan{Kind: "getdata", N: n, Data: m, Span: 2})
 		}
 	}
 	return ps
@@ -80,6 +94,9 @@ func runFaults(e *ev.Env, w *witnesses) {
 		e.Stat("fault_plan_schedules", int64(n))
 		if plan.Kind != "" {
 			e.Stat("fault_plan_schedules_fault_fired", t.fired)
+			if plan.Kind == "getdata" {
+				e.Stat("fault_plan_schedules_record_damaged", t.fired)
+			}
 			if t.fired == 0 {
 				e.Stat("fault_plans_never_fired", 1) // the call index does not exist in this scenario
 			} else {
@@ -91,7 +108,7 @@ func runFaults(e *ev.Env, w *witnesses) {
 		}
 		e.Sample("fault-plan", map[string]any{"scenario": fs.name, "plan": plan.String(), "schedules": n, "fired_in": t.fired, "exhausted": exhausted})
 	})
-	e.Note("faults", fmt.Sprintf("fault plan = (scenario, call kind, call index): %d scenarios (sequential retries, 2 concurrent requests, sequential pair + concurrent third; thorough adds two different keys, KeepResponseHeaders and 3 concurrent duplicates, the latter capped at 20000 schedules per plan) x %d plans (none, get#1-6, lock#1-3, set#1-3, unlock#1-3 = lock stays held, unlockerr#1-3 = released but error returned); for every plan ALL schedules of the scenario are enumerated (exhaustive iff fault_plans_exhausted == fault_plans); plans whose call index never occurs are counted in fault_plans_never_fired", nsc, len(plans)))
+	e.Note("faults", fmt.Sprintf("fault plan = (scenario, call kind, call index): %d scenarios (sequential retries, 2 concurrent requests, sequential pair + concurrent third; thorough adds two different keys, KeepResponseHeaders and 3 concurrent duplicates, the latter capped at 20000 schedules per plan) x %d plans (none, get#1-6, lock#1-3, set#1-3, unlock#1-3 = lock stays held, unlockerr#1-3 = released but error returned, getdata#n/mode[x2] = Get number n (and n+1) succeeds but returns the stored record truncated (1 byte, 5 bytes, half, all but the last byte), with its first byte replaced by 0xc1, or with trailing garbage (still decodable: no fault for the reader)); for every plan ALL schedules of the scenario are enumerated (exhaustive iff fault_plans_exhausted == fault_plans); plans whose call index never occurs are counted in fault_plans_never_fired", nsc, len(plans)))
 }
 
 var _ = ev.PanicSite
